@@ -1,4 +1,5 @@
 import logging
+import os
 
 from ..fileio import File
 from ..rdd import EmptyRDD
@@ -32,6 +33,11 @@ class FileBinaryStreamDeserializer:
 
 class FileStream:
     def __init__(self, path, process_all=False):
+        # a directory is monitored for new files of any name (spelled without
+        # a wildcard it would resolve like a saved dataset: its part-* files)
+        local_path = path[7:] if path.startswith('file://') else path
+        if os.path.isdir(local_path):
+            path = path.rstrip('/') + '/*'
         self.path = path
         self.files_done = set()
         if not process_all:
